@@ -119,6 +119,7 @@ class Wire:
         self.crashes = []
         self.sent_to_client = 0
         self.consumed = 0
+        self.split_mode = 0
 
     def start(self):
         self.proto.makeConnection(self.t)
@@ -196,7 +197,21 @@ class Wire:
                         break
                     r = r[:budget]
                     budget -= len(r)
-                self.feed(r)
+                # what the server writes at once may arrive in several reads: whole, cut between the CR and the LF that
+                # end a handshake line (or before the last byte of a message), cut in the middle, or byte by byte
+                mode = self.split_mode
+                if mode == 1 and len(r) > 1:
+                    pieces = [r[:-1], r[-1:]]
+                elif mode == 2 and len(r) > 2:
+                    pieces = [r[:len(r) // 2], r[len(r) // 2:]]
+                elif mode == 3:
+                    pieces = [r[i:i + 1] for i in range(len(r))]
+                else:
+                    pieces = [r]
+                for pc in pieces:
+                    self.feed(pc)
+                    if self.lost:
+                        break
                 if self.lost:
                     break
             if self.lost or (budget is not None and budget <= 0):
@@ -238,6 +253,9 @@ def connect_case(ctx, entries, mask, behaviour, cut, case, fail_kind=0):
             break
         if mask[k]:
             wire = Wire(factory, kind == 'unix', behaviour)
+            wire.split_mode = case.get('split', (len(addr) + (cut or 0) + fail_kind + sum(entries)) % 4)
+            w['split_mode'] = wire.split_mode
+            ctx.count('connect_cases_split_mode_%d' % wire.split_mode)
             total = wire.run(cut)
             break
         factory.clientConnectionFailed(connector, Failure(UNREACHABLE[(fail_kind + k) % len(UNREACHABLE)]()))
